@@ -55,6 +55,21 @@ def lex(text):
     return out
 
 
+def variant_test(ge):
+    """(pattern, scrutinee) of a boolean test of the form `let PAT = X` or `matches!(X, PAT)`"""
+    if not isinstance(ge, dict):
+        return None
+    if ge.get("k") == "let":
+        return ge.get("pat") or {}, ge.get("init")
+    if ge.get("k") == "match" and "matches" in (ge.get("mac") or []) and len(ge.get("arms") or []) == 2:
+        a0, a1 = ge["arms"]
+        b0, b1 = H.peel_ref(a0["body"]), H.peel_ref(a1["body"])
+        if a0.get("guard") is None and a1["pat"].get("k") == "wild" and b0.get("k") == "lit" and b0["lit"].get("v") is True and \
+                b1.get("k") == "lit" and b1["lit"].get("v") is False:
+            return a0["pat"], ge["scrut"]
+    return None
+
+
 def _sep_loop(x):
     """(flag guard text, separator S, body items) of a loop whose iteration starts with `if !flag { write SEP }`"""
     if x[0] not in ("loop", "star", "star1"):
@@ -452,17 +467,18 @@ class Builder:
             return None
         g, b = t_[0]
         ge = g.get("e")
-        if not (isinstance(ge, dict) and ge.get("k") == "let"):
+        vt = variant_test(ge)
+        if vt is None:
             return None
         if [y for y in T.flat(f_[0][1]) if y != ("seq", [])]:
             return None
         body = [y for y in T.flat(b) if y != ("seq", [])]
         if len(body) != 1 or body[0][0] != "ctl" or body[0][1] not in ("continue", "ret"):
             return None
-        pt = ge.get("pat") or {}
+        pt, init_ = vt
         if pt.get("k") != "variant" or not all(z.get("k") in ("bind", "wild") for z in pt.get("subs") or []):
             return None
-        scr = (H.place(ge.get("init")) or "").lstrip("*&")
+        scr = (H.place(init_) or "").lstrip("*&")
         pd = (pt.get("path") or {}).get("def")
         if not scr or not pd or scr in self.assigned:
             return None
